@@ -39,30 +39,31 @@ Definition agrees (l : list res) (obs : list (list str * sdesc * option ent)) : 
                        | None => false
                        end) obs.
 
-(* regions of the known findings, decidable on the input:
-   1  a scope contains a procedure whose name a host scope also gives to a procedure
-      (all_procs is updated WITH the parent's: the contained procedure does not shadow)
-   2  an identifier is declared more than once in the unit, or is referenced from a scope where it
-      is not visible although another scope of the unit declares it (declarations leak to siblings
-      and hosts through the shared dictionaries); 1 is a special case of 2 *)
-Definition region_shadow (evs : list event) : bool :=
-  let all := scopes_of evs in
-  existsb (fun Sc => match s_kind Sc with
-                     | KUnit => false
-                     | _ => existsb (fun n => match resolve_in all (removelast (s_path Sc)) CProc n with
-                                              | Some _ => true
-                                              | None => false
-                                              end) (s_procs Sc)
-                     end) all.
-Definition region_leak (evs : list event) : bool :=
-  negb (names_unique_per_root evs) || negb (refs_visible_or_undeclared evs).
+(* region of the remaining finding, decidable on the input: procedure(n) where an abstract
+   interface n of an inner scope hides a procedure n of an outer scope (FORD takes the procedure).
+   The Spec is only asked about legal units (scopes_legal: no own/import clash, no ambiguous
+   import in one scope). *)
+Definition region_abs_over_proc (evs : list event) : bool := negb (procabs_consistent evs).
 
 Definition case := (list event * list (list str * sdesc * option ent))%type.
+(* the implementation agrees with the Spec on every slot on which the model agrees with the Spec
+   (a difference where the model itself differs from the Spec is the recorded finding) *)
+Definition agrees_x (lm ls : list res) (obs : list (list str * sdesc * option ent)) : bool :=
+  Nat.eqb (length ls) (length obs)
+  && forallb (fun o => match find_res ls (fst (fst o)) (snd (fst o)), find_res lm (fst (fst o)) (snd (fst o)) with
+                       | Some rs, Some rm => negb (opt_eqb ent_eqb (r_ent rm) (r_ent rs))
+                                             || opt_eqb ent_eqb (r_ent rs) (snd o)
+                       | _, _ => false
+                       end) obs.
+(* bit 1: a difference from the Spec that the recorded finding does not explain;
+   region value: 1 abs-over-proc, 2 not a legal unit (Spec not asked), 4 not a well-formed event
+   list, 8 the implementation differs from the Spec somewhere *)
 Definition judge (c : case) : nat :=
   let evs := fst c in
-  verdict (negb (agrees (correlate evs) (snd c))) (negb (agrees (spec evs) (snd c)))
-          ((if region_shadow evs then 1 else 0) + (if region_leak evs then 2 else 0)
-           + (if wf_events evs then 0 else 4)).
+  let legal := scopes_legal evs in
+  verdict (negb (agrees (correlate evs) (snd c))) (legal && negb (agrees_x (correlate evs) (spec evs) (snd c)))
+          ((if region_abs_over_proc evs then 1 else 0) + (if legal then 0 else 2)
+           + (if wf_events evs then 0 else 4) + (if legal && negb (agrees (spec evs) (snd c)) then 8 else 0)).
 
 (* ancestor_module / parent_submodule: (names of the candidate units in project order, the name
    written in the SUBMODULE statement, the unit the implementation attached) *)
